@@ -136,7 +136,7 @@ class AtomsEngine(Engine):
     name = 'session_atoms'
     max_ops = 50
     expected_probes = ['inplace_overwrite_other_dtype', 'alias_candidate_used', 'refused_raised', 'scribble_result',
-                       'scribble_safecopy', 'setitem_overlap', 'extend_new_props_both_sides', 'natypes_grew', 'readonly_reassign_refused',
+                       'scribble_safecopy', 'setitem_overlap', 'extend_new_props_both_sides', 'natypes_grew', 'readonly_reassign_refused', 'noncontiguous_input', 'atype_lt1_scalar_forms',
                        'negative_index', 'mask_index', 'scaled_write', 'prop_atype_single_new_key', 'df_checked',
                        'box_set_with_possible_sharers', 'box_alias_candidate_used']
     rule = ('Each run keeps a pool of up to 6 live Atoms/System objects (parent/child links recorded) and applies up to '
@@ -241,7 +241,8 @@ class AtomsEngine(Engine):
             cls, ts = reg[nm]
             props[nm] = [self._val(ctx, cls, ts) for _ in range(n)]
         return {'n': n, 'atype': [r.randint(1, 3) for _ in range(n)],
-                'pos': [[round(r.uniform(-5, 15), 4) for _ in range(3)] for _ in range(n)], 'props': props}
+                'pos': [[round(r.uniform(-5, 15), 4) for _ in range(3)] for _ in range(n)], 'props': props,
+                'layout': r.choice(['C', 'C', 'C', 'F', 'strided', 'T'])}
 
     # ------------------------------------------------------------------
     def gen(self, ctx, st):
@@ -373,7 +374,8 @@ class AtomsEngine(Engine):
             val = [self._val(ctx, cls, ts, key) for _ in range(m.n)]
         return {'op': 'set_whole', 'o': slot, 'key': key, 'form': form, 'value': val,
                 'via': r.choice(['attr', 'view', 'prop', 'sys_prop']), 'as_array': r.random() < 0.5,
-                'as_float': cls == 'int' and key != 'atype' and r.random() < 0.15, 'junk': r.randint(80, 90)}
+                'as_float': cls == 'int' and key != 'atype' and r.random() < 0.15, 'junk': r.randint(80, 90),
+                'layout': r.choice(['C', 'C', 'C', 'F', 'strided', 'T'])}
 
     def _gen_sys(self, ctx, st, slot):
         r = ctx.rng
@@ -439,7 +441,10 @@ class AtomsEngine(Engine):
         elif what == 'atype_lt1':
             v = [r.randint(1, 3) for _ in range(m.n)]
             v[r.randrange(m.n)] = r.choice([0, -1])
-            op.update(value=v, via=r.choice(['attr', 'view', 'prop']))
+            # the same refusal is owed to every way of writing the whole property: full vector, one-element list,
+            # bare Python int, numpy scalar, 0-d array, list form
+            op.update(value=v, via=r.choice(['attr', 'view', 'prop', 'sys_prop']),
+                      form=r.choice(['full', 'full', 'len1', 'pyint', 'npint', '0d', 'list']), bad=r.choice([0, -1, -2]))
         elif what == 'setitem_mismatch':
             names = [nm for nm in st['reg'] if nm not in m.reg]
             extra = names[:1] if names else []
@@ -510,10 +515,13 @@ class AtomsEngine(Engine):
 
     def _build_atoms(self, ctx, spec, safecopy=False, clause='C06.X'):
         arrs = OrderedDict()
+        lay = spec.get('layout', 'C')
         for nm, vals in spec['props'].items():
-            arrs[nm] = np.array(vals)
-        atype = np.array(spec['atype'], dtype=int)
-        pos = np.array(spec['pos'], dtype=float)
+            arrs[nm] = geom.with_layout(np.array(vals), lay)
+        atype = geom.with_layout(np.array(spec['atype'], dtype=int), lay)
+        pos = geom.with_layout(np.array(spec['pos'], dtype=float), lay)
+        if lay != 'C' and not pos.flags['C_CONTIGUOUS']:
+            ctx.probe('noncontiguous_input')
         a = ctx.must(clause, am.Atoms, atype=atype, pos=pos, safecopy=safecopy, klass='Atoms()', **arrs)
         return a, atype, pos, arrs
 
@@ -705,6 +713,8 @@ class AtomsEngine(Engine):
         arr = np.array(val)
         if op.get('as_float') and cls == 'int':
             arr = arr.astype(float)
+        if op['as_array'] and op.get('layout', 'C') != 'C':
+            arr = geom.with_layout(arr, op['layout'])
         given = arr if op['as_array'] else (arr.tolist() if arr.ndim else arr.item())
         atoms = m.atoms
         via = op['via']
@@ -1272,9 +1282,16 @@ class AtomsEngine(Engine):
         elif what == 'atype_lt1':
             if len(op['value']) != m.n or min(op['value']) >= 1:
                 return {'skip': 1}
-            v = np.array(op['value'])
+            form = op.get('form', 'full')
+            bad = int(op.get('bad', 0))
+            v = {'full': np.array(op['value']), 'list': list(op['value']), 'len1': [bad], 'pyint': bad, 'npint': np.int64(bad),
+                 '0d': np.array(bad)}[form]
+            via = op['via'] if (op['via'] != 'sys_prop' or m.kind == 'system') else 'prop'
             f = {'attr': lambda: setattr(atoms, 'atype', v), 'view': lambda: atoms.view.__setitem__('atype', v),
-                 'prop': lambda: atoms.prop(key='atype', value=v)}[op['via']]
+                 'prop': lambda: atoms.prop(key='atype', value=v),
+                 'sys_prop': lambda: m.real.atoms_prop(key='atype', value=v)}[via]
+            if form not in ('full', 'list'):
+                ctx.probe('atype_lt1_scalar_forms')
             ok, res = ctx.sut(f)
             must = True
         elif what == 'setitem_mismatch':
